@@ -1,6 +1,6 @@
 (* Entry.v — executable entry points of the model, one per correspondence family:
    decode a case, run the model, encode the observable. *)
-From SLT Require Export Decode Runner Parser Unparse FsTrim Include Update Subst Framing Partition.
+From SLT Require Export Decode Runner Parser Unparse FsTrim Include Update Subst Framing Partition Cli Par.
 Open Scope N_scope.
 
 Definition e_event (e : event) : val :=
@@ -253,6 +253,37 @@ Definition partition_case (v : val) : val :=
   | _ => vtag "sel" [e_strs (select_all cfg (map d_strs (get_l (arg 2 v))))]
   end.
 
+(* ---- family "cli": [[result codes in processing order: 0 ok 1 failed 2 cancelled 3 skipped 4 failed+refused]; fail_fast; ctrl_c] *)
+Definition d_fresult (v : val) : fresult :=
+  let n := get_n v in
+  if n =? 0 then ROk else if n =? 1 then RErr false else if n =? 2 then RCancelled else if n =? 3 then RSkipped else RErr true.
+
+Definition cli_case (v : val) : val :=
+  let rs := map d_fresult (get_l (arg 0 v)) in
+  let '(t, f, d) := junit_totals rs in
+  VL [VN (exit_status (get_b (arg 1 v)) (get_b (arg 2 v)) rs);
+      VL [VN (N.of_nat t); VN (N.of_nat f); VN (N.of_nat d)];
+      vbool (cancelled (drive (get_b (arg 1 v)) rs))].
+
+(* ---- family "par": [jobs; kept dbs; events] with events ["create",db] ["connect",db,s] ["sql",db,s]
+   ["close",db,s] ["cancel"] ["drop",db] ["mgmt-close"] -> ["accepted"] | ["refused", index] *)
+Definition d_pev (v : val) : pev :=
+  if tag_is v "create" then PCreate (get_s (arg 1 v))
+  else if tag_is v "connect" then PConnect (get_s (arg 1 v)) (get_n (arg 2 v))
+  else if tag_is v "sql" then PSql (get_s (arg 1 v)) (get_n (arg 2 v))
+  else if tag_is v "close" then PClose (get_s (arg 1 v)) (get_n (arg 2 v))
+  else if tag_is v "cancel" then PCancel
+  else if tag_is v "drop" then PDrop (get_s (arg 1 v))
+  else PMgmtClose.
+
+Definition par_case (v : val) : val :=
+  let pa := mkParams (N.to_nat (get_n (arg 0 v))) (d_strs (arg 1 v)) in
+  let tr := map d_pev (get_l (arg 2 v)) in
+  match first_refused pa pst0 tr 0 with
+  | None => vtag "accepted" []
+  | Some i => vtag "refused" [VN (N.of_nat i)]
+  end.
+
 (* family dispatcher used by the extracted runner and by the vm_compute cross-check *)
 Definition model_main (fam : str) (v : val) : val :=
   if str_eqb fam (lit "run") then run_case v
@@ -264,4 +295,6 @@ Definition model_main (fam : str) (v : val) : val :=
   else if str_eqb fam (lit "frames") then frames_case v
   else if str_eqb fam (lit "request") then request_case v
   else if str_eqb fam (lit "partition") then partition_case v
+  else if str_eqb fam (lit "cli") then cli_case v
+  else if str_eqb fam (lit "par") then par_case v
   else VS (lit "unknown-family").
